@@ -1132,6 +1132,82 @@ func c03Keys(c *Ctx) {
 		c.info("C03-R9", compilerPkg+"#no-exprKey", token.NoPos, "no expression-key function")
 		return
 	}
+	// the kill finds a remembered expression by the token `var:<name>` followed by a delimiter: wherever the optimiser
+	// writes a `var:` token, what follows the prefix is the Name of a VariableExpr and nothing else (not a dotted
+	// path, not a name with a suffix) - otherwise reassigning the variable leaves the remembered value in force
+	{
+		isVarName := func(v ssa.Value) bool {
+			if mi, ok := v.(*ssa.MakeInterface); ok {
+				v = mi.X
+			}
+			v = stripConv(v)
+			if loadedFromField(v, "VariableExpr", "Name") {
+				return true
+			}
+			if fl, ok := v.(*ssa.Field); ok {
+				if nt := namedOf(fl.X.Type()); nt != nil && nt.Obj().Name() == "VariableExpr" {
+					return nt.Underlying().(*types.Struct).Field(fl.Field).Name() == "Name"
+				}
+			}
+			return false
+		}
+		n := 0
+		for _, fn := range c.srcFuncs(compilerPkg) {
+			k := 0
+			eachInstr(fn, func(_ *ssa.BasicBlock, _ int, ins ssa.Instruction) {
+				switch x := ins.(type) {
+				case *ssa.Call:
+					if !strings.HasPrefix(callName(x), "fmt.Sprint") || len(x.Call.Args) == 0 {
+						return
+					}
+					fs, ok := constString(x.Call.Args[0])
+					if !ok || !strings.Contains(fs, "var:") {
+						return
+					}
+					n++
+					k++
+					okShape := fs == "var:%s"
+					if okShape && len(x.Call.Args) > 1 {
+						// the variadic slice holds exactly the name
+						okShape = false
+						if sl, ok := x.Call.Args[1].(*ssa.Slice); ok {
+							if al, ok := sl.X.(*ssa.Alloc); ok {
+								for _, r := range refs(al) {
+									if ia, ok := r.(*ssa.IndexAddr); ok {
+										for _, rr := range refs(ia) {
+											if st, ok := rr.(*ssa.Store); ok && st.Addr == ssa.Value(ia) && isVarName(st.Val) {
+												okShape = true
+											}
+										}
+									}
+								}
+							}
+						}
+					}
+					c.ob("C03-R9", fnKey(fn)+"#var-token-is-a-variable-name-"+itoa(k), x.Pos(), okShape, "a `var:` token of an expression key is followed by something other than the bare name of a variable (a dotted field path, a suffix): the killer looks for `var:<name>` followed by a delimiter and does not find it, so reassigning the variable leaves the remembered expression in force and a later identical expression reuses a value computed from the old object")
+				case *ssa.BinOp:
+					if x.Op != token.ADD {
+						return
+					}
+					if sv, ok := constString(x.X); ok && strings.HasSuffix(sv, "var:") {
+						n++
+						k++
+						// … and the token is not continued: whatever is appended to it starts with a delimiter the killer accepts
+						continued := false
+						for _, r := range refs(x) {
+							if b2, ok := r.(*ssa.BinOp); ok && b2.Op == token.ADD && b2.X == ssa.Value(x) {
+								if sv, ok := constString(b2.Y); !ok || !(strings.HasPrefix(sv, " ") || strings.HasPrefix(sv, ")")) {
+									continued = true
+								}
+							}
+						}
+						c.ob("C03-R9", fnKey(fn)+"#var-token-is-a-variable-name-"+itoa(k), x.Pos(), (isVarName(x.Y) || isParam(x.Y)) && !continued, "a `var:` token of an expression key is followed by something other than the bare name of a variable (a dotted field path, a suffix): the killer looks for `var:<name>` followed by a delimiter and does not find it, so reassigning the variable leaves the remembered expression in force")
+					}
+				}
+			})
+		}
+		c.Sites["C03-R9#var-tokens"] = n
+	}
 	// exprKey and the package functions it calls (one level)
 	fns := map[*ssa.Function]bool{ek: true}
 	eachCall(ek, func(call ssa.CallInstruction) {
@@ -1592,3 +1668,6 @@ func nodeText(c *Ctx, n ast.Node) string {
 	}
 	return string(b[pos.Offset:end.Offset])
 }
+
+// isParam: a function parameter (the killer's own search token is built as "var:" + its name parameter).
+func isParam(v ssa.Value) bool { _, ok := v.(*ssa.Parameter); return ok }
